@@ -79,19 +79,40 @@ Proof.
   rewrite H. rewrite fold_stats_ok. reflexivity.
 Qed.
 
-Definition dec1 (c : Z) (p : pct) : pent := mkPE (pc_q p) (pc_val p) (inject_Z c) (pc_val p).
-Lemma decode_no_null : forall c ps, map (decode_pct c) (map Some ps) = map Some (map (dec1 c) ps).
-Proof. intros c ps. rewrite !map_map. reflexivity. Qed.
+Lemma decode_plain : forall e,
+  ea_pcts (e2e_decode e) = map Some (map (decode_pct (e_count e)) (nonnil (e_pcts e))).
+Proof. intro e. unfold e2e_decode. cbn [ea_pcts]. rewrite map_map. reflexivity. Qed.
 
-(* the topic view's channel aggregate: the first node's decoded aggregate is the receiver; if it
-   holds no null entry the same holds *)
-Theorem e2e_of_topic_channel_total : forall c ps nodes,
-  e2e_of_topic_channel (Some (mkE2e c (map Some ps)) :: nodes) =
-  Ok (Some (mkEA (count_from c nodes) (map Some (merge_all (map (dec1 c) ps) (node_values nodes))))).
+(* the topic view's channel aggregate: the first node's decoded block is the receiver.  The
+   decoder drops null entries, so for ANY blocks -- null entries anywhere, on any node -- the
+   merge never assigns into a nil map: no panic, no division by zero *)
+Theorem e2e_of_topic_channel_total : forall e nodes,
+  e2e_of_topic_channel (Some e :: nodes) =
+  Ok (Some (mkEA (count_from (e_count e) nodes)
+                 (map Some (merge_all (map (decode_pct (e_count e)) (nonnil (e_pcts e))) (node_values nodes))))).
 Proof.
-  intros c ps nodes. unfold e2e_of_topic_channel, option_map, e2e_decode. cbn [e_count e_pcts].
-  rewrite decode_no_null. apply fold_stats_ok.
-
+  intros e nodes. unfold e2e_of_topic_channel, e2e_of_receiver, option_map.
+  assert (e2e_decode e = mkEA (e_count e) (map Some (map (decode_pct (e_count e)) (nonnil (e_pcts e))))) as H.
+  { unfold e2e_decode. rewrite map_map. reflexivity. }
+  rewrite H. apply fold_stats_ok.
+Qed.
+(* decoded blocks hold no nil map *)
+Theorem decode_no_nil_map : forall e, existsb is_nil (ea_pcts (e2e_decode e)) = false.
+Proof.
+  intro e. rewrite decode_plain. induction (map (decode_pct (e_count e)) (nonnil (e_pcts e))) as [|x l IH].
+  reflexivity. exact IH.
+Qed.
+(* whatever the views encode is computed without a panic *)
+Theorem e2e_views_never_panic : forall nodes,
+  (exists v, e2e_of_nodes nodes = Ok v) /\ (exists v, e2e_of_topic_channel nodes = Ok v).
+Proof.
+  intro nodes. split.
+  - rewrite e2e_of_nodes_total. eexists. reflexivity.
+  - destruct nodes as [|[e|] nodes].
+    + eexists. reflexivity.
+    + rewrite e2e_of_topic_channel_total. eexists. reflexivity.
+    + change (e2e_of_topic_channel (None :: nodes)) with (e2e_of_nodes nodes).
+      rewrite e2e_of_nodes_total. eexists. reflexivity.
 Qed.
 Theorem e2e_of_topic_channel_first_nil : forall nodes,
   e2e_of_topic_channel (None :: nodes) = e2e_of_nodes nodes.
@@ -369,7 +390,7 @@ Qed.
 (* every statement of E2eProcessingLatencyAggregate.Add and of UnmarshalJSON's loop, regenerated
    from internal/quantile/aggregate.go on every run (gen/ClusterTables.v): the nil test, the
    search by "quantile", the appended map, max, count, the zero-count test in front of the
-   division, the incremental mean *)
+   division, the incremental mean; the decoder's skip of null entries and the list it keeps *)
 Definition quantile_add_expected : list String.string := [
     "if e2 == nil {"; "return"; "}"; "e.Addr = ""*"""; "p := e.Percentiles"; "e.Count += e2.Count";
     "for _, value := range e2.Percentiles {"; "i := -1"; "for j, v := range p {";
@@ -382,10 +403,13 @@ Definition quantile_add_expected : list String.string := [
     "p[i][""average""] = p[i][""average""] + R"; "}"; "sort.Sort(e)"]%string.
 Definition quantile_unmarshal_expected : list String.string := [
     "for _, p := range resp.Percentiles {"; "if p == nil {"; "continue"; "}"; "p[""min""] = p[""value""]";
-    "p[""max""] = p[""value""]"; "p[""average""] = p[""value""]"; "p[""count""] = float64(resp.Count)"; "}"]%string.
+    "p[""max""] = p[""value""]"; "p[""average""] = p[""value""]"; "p[""count""] = float64(resp.Count)"; "percentiles = append(percentiles, p)"; "}"]%string.
+Definition quantile_lists_expected : list String.string :=
+  ["percentiles := resp.Percentiles[:0]"; "e.Percentiles = percentiles"]%string.
 Theorem quantile_shapes_current :
-  quantile_add_body = quantile_add_expected /\ quantile_unmarshal_loop = quantile_unmarshal_expected.
-Proof. split; reflexivity. Qed.
+  quantile_add_body = quantile_add_expected /\ quantile_unmarshal_loop = quantile_unmarshal_expected /\
+  quantile_unmarshal_lists = quantile_lists_expected.
+Proof. repeat split; reflexivity. Qed.
 
 (* ------------------------------------------------------------------ witnesses *)
 (* an idle channel on two nodes (count 0 everywhere) and a busy third one *)
@@ -405,11 +429,14 @@ Proof. vm_compute. reflexivity. Qed.
 Example e2e_witness_division : fdiv ((0 - 0) * 0) (0 + 0) = Recovered.
 Proof. reflexivity. Qed.
 
-(* a null entry in the first node's channel aggregate and an element that selects it (a null
-   entry, or one without a quantile): the topic view's merge assigns into a nil map -- a
-   recovered panic (500), known behaviour on malformed upstream data *)
+(* null entries are dropped by the decoder: two nodes serving "percentiles":[null] (the F19
+   witness), and a null entry against a quantile-0 entry, merge to a finite aggregate; a nil map
+   in a receiver can only be put there by hand, and then Add's assignment into it panics *)
 Example e2e_witness_null_entry :
-  (e2e_of_topic_channel [Some (mkE2e 1 [None]); Some (mkE2e 1 [None])],
-   match e2e_of_nodes [Some (mkE2e 1 [None]); Some (mkE2e 1 [None])] with Ok (Some _) => true | _ => false end)
-  = (Recovered, true).
+  (match e2e_of_topic_channel [Some (mkE2e 1 [None]); Some (mkE2e 1 [None])] with
+   | Ok (Some e) => Some (ea_count e, length (ea_pcts e)) | _ => None end,
+   match e2e_of_topic_channel [Some (mkE2e 1 [None]); Some (mkE2e 2 [Some (mkPct 0 7)])] with
+   | Ok (Some e) => Some (ea_count e, length (ea_pcts e)) | _ => None end,
+   e2e_of_receiver (Some (with_nil_maps 1 (e2e_decode (mkE2e 1 [None])))) [Some (mkE2e 2 [Some (mkPct 0 7)])])
+  = (Some (2%Z, 0%nat), Some (3%Z, 1%nat), Recovered).
 Proof. vm_compute. reflexivity. Qed.
